@@ -53,12 +53,13 @@ type certFn struct {
 }
 
 type world struct {
-	pool   []lib.KeyPair
-	root   *lib.CA
-	inter  *lib.CA
-	evil   *lib.CA
-	leaves map[string]*certFn
-	sysPEM string // PEM of the CA in this process's system trust store ("" in the normal process)
+	pool      []lib.KeyPair
+	root      *lib.CA
+	inter     *lib.CA
+	evil      *lib.CA
+	leaves    map[string]*certFn
+	outsiders []lib.KeyPair
+	sysPEM    string // PEM of the CA in this process's system trust store ("" in the normal process)
 }
 
 func far() time.Time { return time.Now().Add(10 * 365 * 24 * time.Hour) }
@@ -115,7 +116,29 @@ func newWorld(sysCA *lib.CA) *world {
 	for _, f := range w.leaves {
 		signers.Store(f.leaf.Key.KeyID, f.leaf.Signer)
 	}
+	// outsiders: keys no layout ever lists and no certificate was issued for
+	for _, n := range []string{"ed-c02-outsider", "ecdsa256-c02-outsider", "rsa2048-c02-outsider"} {
+		kp := lib.GetKeyPair(n)
+		w.outsiders = append(w.outsiders, kp)
+		signers.Store(kp.Pub.KeyID, kp.Signer)
+	}
 	return w
+}
+
+// borrowedItem: a link signed by an outsider whose signature entry's cert field holds an authorised functionary's
+// CERTIFICATE together with the outsider's own KEY block (variant bit 0: key block first; bit 1: private instead of public key block)
+func (w *world) borrowedItem(st stepShape, f *certFn, o lib.KeyPair, variant int) *item {
+	keyBlock := string(o.PubPEM)
+	if variant&2 != 0 {
+		keyBlock = string(o.PrivPEM)
+	}
+	k := o.Priv
+	if variant&1 != 0 {
+		k.KeyVal.Certificate = keyBlock + string(f.leaf.CertPEM)
+	} else {
+		k.KeyVal.Certificate = string(f.leaf.CertPEM) + keyBlock
+	}
+	return &item{name: linkName(st.name, o.Pub.KeyID), content: dumpMB(signedMB(st.name, k)), label: "borrowed-cert-plus-own-key-block"}
 }
 
 var signers sync.Map // key id -> crypto.Signer
@@ -630,6 +653,14 @@ func makers() []maker {
 		leafItem("frank", "cert-frank-p521"),
 		leafItem("grace", "cert-grace-rsa2048-under-root"),
 		leafItem("heidi", "cert-heidi-rsa3072"),
+		// an outsider borrows an authorised functionary's certificate: cert field = that certificate + the outsider's key block
+		{"borrowed-cert-plus-own-key-block", func(w *world, sc *scenario, st stepShape, r *lib.Rng) *item {
+			f := w.leaves[honestCerts[r.Intn(len(honestCerts))]]
+			if r.Chance(1, 2) { // often next to the functionary's own link
+				sc.addItem(st, w.certItem(st, sc, f, "cert-"+f.name))
+			}
+			return w.borrowedItem(st, f, w.outsiders[r.Intn(len(w.outsiders))], r.Intn(4))
+		}},
 		// the signature's cert field holds the leaf FOLLOWED BY the intermediate CA certificate: an unsigned field under the
 		// signer's control is no source of intermediates — authorised only if layout / caller supply the intermediate
 		{"cert-with-bundled-intermediate", func(w *world, sc *scenario, st stepShape, r *lib.Rng) *item {
@@ -977,6 +1008,41 @@ func witnessScenarios(w *world, r *lib.Rng) []*scenario {
 		for _, n := range honestCerts {
 			sc.addItem(s1, w.certItem(s1, sc, w.leaves[n], "cert-"+n))
 		}
+		out = append(out, sc)
+	}
+	// an outsider's link carrying an authorised functionary's certificate plus the outsider's own key block
+	for v := 0; v < 8; v++ {
+		sc := &scenario{klass: "borrowed-certificate-with-own-key-block", defined: map[int]bool{}, items: map[string][]item{}, roots: "root", interIn: "layout"}
+		st := stepShape{name: "build", threshold: 1, ccs: []intoto.CertificateConstraint{ccAll()}}
+		f := w.leaves[honestCerts[v%len(honestCerts)]]
+		if v >= 4 { // next to the functionary's own link, threshold 2: still one functionary
+			st.threshold = 2
+			sc.steps = []stepShape{st}
+			sc.addItem(st, w.certItem(st, sc, f, "cert-"+f.name))
+		} else {
+			sc.steps = []stepShape{st}
+		}
+		sc.addItem(st, w.borrowedItem(st, f, w.outsiders[v%len(w.outsiders)], v%4))
+		out = append(out, sc)
+	}
+	// exactly threshold-1 honest links (threshold 2..4), plus junk: rejected — also when a parameter dictionary is passed
+	for th := 2; th <= 4; th++ {
+		sc := &scenario{klass: "threshold-minus-one", defined: map[int]bool{}, items: map[string][]item{}, roots: "root", interIn: "layout"}
+		st := stepShape{name: "build", threshold: th, ccs: []intoto.CertificateConstraint{ccAll()}}
+		for i := 0; i < th; i++ {
+			st.pubkeys = append(st.pubkeys, i+2)
+			sc.defined[i+2] = true
+		}
+		sc.steps = []stepShape{st}
+		sc.addItem(st, w.keyItem(st, sc, 2, "key-authorised"))
+		if th >= 3 {
+			sc.addItem(st, w.certItem(st, sc, w.leaves[honestCerts[th]], "cert"))
+		}
+		if th >= 4 {
+			sc.addItem(st, w.keyItem(st, sc, 3, "key-authorised"))
+		}
+		sc.addItem(st, byLabel["unsigned"].make(w, sc, st, r))
+		sc.addItem(st, w.keyItem(st, sc, 9, "key-not-authorised"))
 		out = append(out, sc)
 	}
 	// the intermediate CA is supplied ONLY inside a link signature's cert field (leaf + intermediate): neither the layout
@@ -1405,7 +1471,10 @@ func runImpl(in input, dir string) string {
 		out += ";S=" + summarise(seen[i+1])
 	}
 	if in.E2E {
-		out += ";V=" + runE2E(in, dir, inter, false) + ";VD=" + runE2E(in, dir, inter, true)
+		out += ";V=" + runE2E(in, dir, inter, false, nil) + ";VD=" + runE2E(in, dir, inter, true, nil)
+		// and with a non-empty dictionary of parameters that no rule or command mentions: same verdict
+		unused := map[string]string{"UNUSED": "x", "ALSO_UNUSED": "{UNUSED}"}
+		out += ";VP=" + runE2E(in, dir, inter, false, unused) + ";VDP=" + runE2E(in, dir, inter, true, unused)
 	}
 	return out
 }
@@ -1413,7 +1482,7 @@ func runImpl(in input, dir string) string {
 // the full verification: the layout signed by an owner key, the link directory as it is; accept/reject only.
 // No artifact rules, inspections or sublayouts exist in these scenarios and all links are equal, so the
 // threshold stage decides.
-func runE2E(in input, dir string, inter [][]byte, withDir bool) string {
+func runE2E(in input, dir string, inter [][]byte, withDir bool, params map[string]string) string {
 	owner := lib.GetKeyPair("ed-c02-layout-owner")
 	one := func() string {
 		return lib.Recover(func() string {
@@ -1446,9 +1515,9 @@ func runE2E(in input, dir string, inter [][]byte, withDir bool) string {
 				}
 				defer os.RemoveAll(runDir)
 				os.WriteFile(filepath.Join(runDir, "placeholder"), []byte("x"), 0o644) // the entry point refuses an empty run directory
-				_, err = intoto.InTotoVerifyWithDirectory(env, keys, dir, runDir, "", map[string]string{}, inter, true)
+				_, err = intoto.InTotoVerifyWithDirectory(env, keys, dir, runDir, "", params, inter, true)
 			} else {
-				_, err = intoto.InTotoVerify(env, keys, dir, "", map[string]string{}, inter, true)
+				_, err = intoto.InTotoVerify(env, keys, dir, "", params, inter, true)
 			}
 			if err != nil {
 				return "REJECT"
@@ -1534,7 +1603,7 @@ func oracle(in input) string {
 		if strings.HasPrefix(one(in.Layout.Steps), "OK") {
 			v = "ACCEPT"
 		}
-		out += ";V=" + v + ";VD=" + v
+		out += ";V=" + v + ";VD=" + v + ";VP=" + v + ";VDP=" + v
 	}
 	return out
 }
@@ -1551,6 +1620,12 @@ func kindOfDifference(impl, orc string) string {
 	for i := range a {
 		if i >= len(b) || a[i] == b[i] {
 			continue
+		}
+		if strings.HasPrefix(a[i], "VP=") || strings.HasPrefix(a[i], "VDP=") {
+			if strings.HasSuffix(a[i], "=ACCEPT") {
+				return "full-verification-with-parameters-accepts-without-enough-honest-functionaries"
+			}
+			return "full-verification-with-parameters-rejects-enough-honest-functionaries"
 		}
 		if strings.HasPrefix(a[i], "V=") || strings.HasPrefix(a[i], "VD=") {
 			if strings.HasSuffix(a[i], "=ACCEPT") {
@@ -1722,15 +1797,26 @@ func coqModel(w *world, in input, dir string) (string, string) {
 		if blk == nil {
 			continue
 		}
-		xc, err := x509.ParseCertificate(blk.Bytes)
-		if err != nil {
+		// the key the loader makes of the field (first PEM block: a certificate, or a bare key block), with the
+		// public key taken from that first block by crypto/x509 directly
+		var pub crypto.PublicKey
+		if xc, err := x509.ParseCertificate(blk.Bytes); err == nil {
+			pub = xc.PublicKey
+		} else if pk, err := x509.ParsePKIXPublicKey(blk.Bytes); err == nil {
+			pub = pk
+		} else if sk, err := x509.ParsePKCS8PrivateKey(blk.Bytes); err == nil {
+			if sg, ok := sk.(crypto.Signer); ok {
+				pub = sg.Public()
+			}
+		}
+		if pub == nil {
 			continue
 		}
 		k, err := lib.LoadKeyPEM([]byte(c))
 		if err != nil {
 			continue
 		}
-		ck := candKey{id: k.KeyID, tag: "cert:" + certTag[c], pub: xc.PublicKey}
+		ck := candKey{id: k.KeyID, tag: "cert:" + certTag[c], pub: pub}
 		cks = append(cks, certKey{ck, k})
 		cands = append(cands, ck)
 		certRows = append(certRows, lib.CoqPair(lib.CoqStr(certTag[c]), "key_of "+lib.CoqStr(k.KeyID)+" "+lib.CoqStr(ck.tag)))
